@@ -352,8 +352,10 @@ def rule_empty_guard(ctx: Ctx, clause="C08.10") -> RuleResult:
     rr = RuleResult("GUARD", clause, "the widget-API methods of Pile / Columns / GridFlow read self.focus_position only where the container is known to be non-empty", floor=6)
     for cq in LISTS:
         cls = p.cls(cq)
-        for name in API:
-            fi = cls.methods.get(name)
+        # the widget API, and the setters of the class's option properties (cell_width, ...): assigning an option of an
+        # empty container is as legitimate as asking it for its rows
+        setters = [(f"{pn} setter", pr.setter) for pn, pr in sorted(cls.props.items()) if pr.setter is not None and pn not in ("focus_position", "focus", "contents", "focus_item", "focus_cell", "focus_col", "widget_list", "cells")]
+        for name, fi in [*[(n_, cls.methods.get(n_)) for n_ in API], *setters]:
             if fi is None:
                 continue
             cfg = cfg_of(fi)
@@ -371,8 +373,19 @@ def rule_empty_guard(ctx: Ctx, clause="C08.10") -> RuleResult:
                     safe.append((t, "T"))
             tries = [n for n in ast.walk(fi.node) if isinstance(n, ast.Try) and any(h.type is not None and "IndexError" in ast.unparse(h.type) for h in n.handlers)]
             first_bad = None
+            # the conditional-expression form of the guard: `self.focus_position if self.contents else <default>`
+            guarded_exprs = set()
+            for ie in [x for x in fi.own_nodes() if isinstance(x, ast.IfExp)]:
+                tt = ast.unparse(ie.test)
+                if tt in ("self.contents", "self._contents"):
+                    guarded_exprs |= {id(y) for y in ast.walk(ie.body)}
+                elif tt in ("not self.contents", "not self._contents"):
+                    guarded_exprs |= {id(y) for y in ast.walk(ie.orelse)}
             for l in sorted(loads, key=lambda n: n.lineno):
                 ok = any(l not in ExcEngine._reach_without_edge(cfg, t, lab) for t, lab in safe)
+                reads = [x for e in node_exprs(l) for x in ast.walk(e) if isinstance(x, ast.Attribute) and x.attr == "focus_position" and isinstance(x.ctx, ast.Load)]
+                if reads and all(id(x) in guarded_exprs for x in reads):
+                    ok = True
                 for h in cfg.nodes:
                     if h.kind == "for" and "contents" in ast.unparse(h.ast.iter) and l is not h and l in cfg.reachable_from_edges([(h, "T")], avoid=[h]) and l not in cfg.reachable([cfg.entry], avoid=[h], include_start=True):
                         ok = True
@@ -811,6 +824,8 @@ _C = "urwid/widget/columns.py"
 _G = "urwid/widget/grid_flow.py"
 _F = "urwid/widget/frame.py"
 MUTANTS = [
+    Mut("pile-item-types-reads-focus-of-empty", "urwid/widget/pile.py", "urwid.widget.pile.Pile.item_types", "        focus_position = self.focus_position if self.contents else 0\n", "        focus_position = self.focus_position\n", "GUARD|widget.pile.Pile.item_types|item_types setter: focus_position read without emptiness guard", nth=0),
+    Mut("gridflow-cell-width-reads-focus-of-empty", "urwid/widget/grid_flow.py", "urwid.widget.grid_flow.GridFlow.cell_width", "        if not self.contents:\n            # nothing to re-size, and no focus position to keep\n            self._cell_width = width\n            return\n", "", "GUARD|widget.grid_flow.GridFlow.cell_width|cell_width setter: focus_position read without emptiness guard"),
     Mut("listbox-set-focus-no-empty-test", "urwid/widget/listbox.py", "ListBox.set_focus", "        if focus_widget is None:\n            raise IndexError(\"Can't set focus, ListBox is empty\")\n", "", "GUARD|widget.listbox.ListBox.set_focus|empty ListBox accepts a focus position"),
     Mut("walker-accepts-float-position", "urwid/widget/listbox.py", "SimpleListWalker.set_focus", "        if not isinstance(position, int) or not 0 <= position < len(self):", "        if not 0 <= position < len(self):", "GUARD|widget.listbox.SimpleListWalker.set_focus|non-integral position stored as focus"),
     Mut("twin-walker-integrality-own-test", "urwid/widget/listbox.py", "SimpleListWalker.set_focus", "        if not isinstance(position, int) or not 0 <= position < len(self):\n            raise IndexError(f\"No widget at position {position}\")\n", "        if not isinstance(position, int):\n            raise IndexError(f\"No widget at position {position}\")\n        if not 0 <= position < len(self):\n            raise IndexError(f\"No widget at position {position}\")\n", twin=True),
